@@ -82,7 +82,7 @@ def _model_fixed(rpset, workers, out, timeout):
 
 def _model_reject(prop, out):
     """The strict invariants of this property on the model of the code as written: TLC must reject."""
-    text = _cfg('RemotePickle_fixed.cfg').replace('Algo = "fixed"', 'Algo = "asis"').replace('SeedCopyreg = TRUE', 'SeedCopyreg = FALSE')
+    text = _cfg('RemotePickle_fixed.cfg').replace('Algo = "fixed"', 'Algo = "asis"').replace('SeedCopyreg = "live"', 'SeedCopyreg = "none"')
     text = '\n'.join(l for l in text.splitlines() if not l.startswith('INVARIANT Inv_C') or l.startswith('INVARIANT Inv_' + prop)) + '\n'
     out['reject'] = tlc.run('RemotePickleMC', cfg_text=text, env={'RP_SET': 'wit'}, workers=2, timeout=600,
                             name='reject', must_complete=False)
@@ -135,6 +135,8 @@ def _expand(prop, tier, cases, pool):
     """(case index, scn with proto/ctype, nest_at) for every real execution."""
     jobs = []
     protos_all = (2, 3, 4, 5)
+    # C13: every protocol argument pickle accepts ("None" = the default; -1 = the highest)
+    protos13 = (0, 1, 2, 3, 4, 5, 'None', -1)
     ctypes = ('list', 'tuple', 'dict')
     par_idx = [n for n, c in enumerate(cases) if c['scn']['t'] == 'graph' and c['scn']['par']]
     nev = dict(zip(par_idx, pool.map(_events, [dict(cases[n]['scn'], proto=4, ctype='list') for n in par_idx], chunksize=16))) if par_idx else {}
@@ -142,11 +144,13 @@ def _expand(prop, tier, cases, pool):
         scn = c['scn']
         t = scn['t']
         if t == 'leaf':
-            ps = protos_all
+            ps = (0, 1) if scn['pclass'] == 'low' else (2, 3, 4, 5, 'None', -1)
+            if tier == 'quick' and scn['pclass'] == 'high':
+                ps = (2 + n % 4, ('None', -1)[n % 2])
         elif t == 'cls':
-            ps = protos_all if tier == 'thorough' else (2 + n % 4,)
+            ps = protos13 if tier == 'thorough' else (protos13[n % 8],)
         elif prop == 'C13':
-            ps = protos_all if tier == 'thorough' else (2 + n % 4, 2 + (n + 2) % 4)
+            ps = protos13 if tier == 'thorough' else (protos13[n % 8], protos13[(n + 3) % 8])
         else:
             ps = (2 + n % 4,) if tier == 'quick' else (2 + n % 4, 2 + (n + 1) % 4)
         for j, p in enumerate(ps):
@@ -158,6 +162,8 @@ def _expand(prop, tier, cases, pool):
                 s2 = dict(scn, proto=p, ctype=ct)
                 if prop == 'C13':            # plain nodes: classes with/without __getstate__/__setstate__/__reduce__/__getnewargs__/__slots__/**kw
                     s2['pvar'] = _PVARS[(n + j) % len(_PVARS)]
+                    if s2['pvar'] == 'slots' and p in (0, 1):      # pickle itself refuses __slots__ without __getstate__ there
+                        s2['pvar'] = 'newargs'                     # (the menu item slots_class covers that)
                 if scn['par']:
                     k = max(1, nev.get(n, 1))
                     nests = sorted({1, k}) if tier == 'quick' else range(1, k + 1)
@@ -292,7 +298,7 @@ def run(prop, tier, replay=None):
         mism = [k for k, ((n, s, m), o) in enumerate(zip(jobs, obss)) if not _same(cases[n]['obs'], o)]
         follows_fixed = 0
         if mism:
-            text = _cfg('RemotePickle_asis.cfg').replace('Algo = "asis"', 'Algo = "fixed"').replace('SeedCopyreg = FALSE', 'SeedCopyreg = TRUE')
+            text = _cfg('RemotePickle_asis.cfg').replace('Algo = "asis"', 'Algo = "fixed"')
             text = '\n'.join(l for l in text.splitlines() if not l.startswith('INVARIANT') or l.endswith('CaseDump')) + '\n'
             rf = tlc.run('RemotePickleMC', cfg_text=text, env={'RP_SET': rpset}, workers=12, timeout=big, name='fixedcases', must_complete=False)
             alt = {json.dumps(c['scn'], sort_keys=True): c['obs'] for c in _cases(rf, 'model of the corrected design (%s)' % rpset)}
@@ -304,7 +310,7 @@ def run(prop, tier, replay=None):
                 else:
                     neither.append(k)
             if follows_fixed:
-                print('NOTE: property=%s %d of %d executions follow the corrected design (Algo="fixed", SeedCopyreg=TRUE) '
+                print('NOTE: property=%s %d of %d executions follow the corrected design (Algo="fixed") '
                       'instead of the model of the code as written' % (prop, follows_fixed, len(jobs)))
             for k in neither[:3]:
                 n, s, m = jobs[k]
@@ -323,7 +329,7 @@ def run(prop, tier, replay=None):
 
     # ---- 2. (results) corrected design verified, code as written rejected, witnesses reached ----
     rfx, rrj, rw = out['fixed'], out['reject'], out['wit']
-    ev.add_tlc('corrected design (Algo=fixed, SeedCopyreg=TRUE), scenario set %s: every operator a strict invariant' % rpset, rfx)
+    ev.add_tlc('corrected design (Algo=fixed), scenario set %s: every operator a strict invariant' % rpset, rfx)
     if rfx.error or not rfx.completed:
         raise MachineryError('the corrected design violates a property in the model: %s\n%s' % (rfx.error, '\n'.join(rfx.trace[:80]) or rfx.stdout[-2000:]))
     ev.add_tlc('vacuity: strict %s invariants on the model of the code as written (must be rejected)' % prop, rrj, role='vacuity')
@@ -332,7 +338,7 @@ def run(prop, tier, replay=None):
     ev.add_tlc('witnesses (every antecedent / fault reached)', rw, role='vacuity')
     reached = sorted({x[0] for x in rw.tags.get('WIT', [])})
     need = ['Concurrency', 'Copyreg', 'DumpWarning', 'Failure', 'MemoGet', 'OptInFalse', 'PatchDelivered', 'Residue', 'Siblings',
-            'StdOp', 'StdPath', 'Warning', 'AfterFail', 'Falsy']
+            'StdOp', 'StdPath', 'Warning', 'AfterFail', 'Falsy', 'LateCopyreg', 'LowProto']
     if rw.error or [w for w in need if w not in reached]:
         raise MachineryError('witnesses not reached: %s (%s)' % ([w for w in need if w not in reached], rw.error))
     ev.cov['witnesses'] = {'reached': reached, 'asis_model_rejected_by': rrj.error}
